@@ -1073,6 +1073,11 @@ void DOMDocumentImpl::setStrictErrorChecking(bool strictErrorChecking) {
 }
 
 DOMNode* DOMDocumentImpl::adoptNode(DOMNode* sourceNode) {
+    // documents and document types can never be adopted (and the owner document
+    // of a document is null, so the test below would not tell us anything)
+    if(sourceNode->getNodeType()==DOCUMENT_NODE || sourceNode->getNodeType()==DOCUMENT_TYPE_NODE)
+        throw DOMException(DOMException::NOT_SUPPORTED_ERR, 0, getMemoryManager());
+
     if(sourceNode->getOwnerDocument()!=this)
     {
         // cannot take ownership of a node created by another document, as it comes from its memory pool
@@ -1083,9 +1088,6 @@ DOMNode* DOMDocumentImpl::adoptNode(DOMNode* sourceNode) {
     // this method still has the effect of removing the source node from the child list of its parent, if any
     switch(sourceNode->getNodeType())
     {
-    case DOCUMENT_NODE:
-    case DOCUMENT_TYPE_NODE:
-        throw DOMException(DOMException::NOT_SUPPORTED_ERR, 0, getMemoryManager());
     case ATTRIBUTE_NODE:
         {
             DOMAttr* sourceAttr=(DOMAttr*)sourceNode;
